@@ -119,6 +119,111 @@ theorem func_covers {r : Recs} {sf : SymFile} (hb : build r = .ok sf) {base inst
         rw [(build_built hb).pubs] at hm
         exact ⟨p, List.mem_mergeSort.mp hm, rfl, rfl, rfl, hle⟩
 
+/-! ## 1b. otherwise: the nearest preceding PUBLIC not cut off by an intervening FUNC -/
+
+/-- every entry of the function table is a FUNC record of the file (with a valid range) that
+    starts where the entry starts -/
+theorem ftab_entry_is_record {r : Recs} {sf : SymFile} (hb : build r = .ok sf) {e : Entry}
+    (he : e ∈ sf.ftab) :
+    ∃ f ∈ r.funcs, f.addr = e.1.lo ∧ 0 < f.size ∧ f.addr + f.size ≤ U64MAX ∧
+      sf.funcs[e.2]? = some (finOf f) := by
+  have B := build_built hb
+  rw [B.ftab] at he
+  obtain ⟨g, hg, hgm, h1, h2, h3⟩ := ftab_entry he
+  rw [B.funcs, List.mem_map] at hgm
+  obtain ⟨f, hfm, rfl⟩ := hgm
+  exact ⟨f, hfm, h1, h2, h3, hg⟩
+
+/-- **C11.2 `public_rule`** — "or, if none does, the nearest preceding PUBLIC symbol not cut off
+    by an intervening FUNC", stated exactly as the code decides it
+    (`public.address <= prev_func.address ⇒ nothing`). When no table entry contains the address
+    `a = instr - base`, the answer is
+    * the function `(p.name, p.addr + base, p.psize)` and nothing else, where `p` is the nearest
+      preceding PUBLIC (`NearestPublic`: greatest `(address, name, parameter size)` among the
+      PUBLIC records at or below `a`) — and then every FUNC of the table that starts at or below
+      `a` starts strictly below `p`; or
+    * nothing at all — and then either no PUBLIC record lies at or below `a`, or the nearest
+      preceding PUBLIC `p` is cut off: some FUNC of the table starts in `[p.addr, a]`.
+    (Table entries are FUNC records of the file: `ftab_entry_is_record`; for files without
+    overlapping FUNCs every valid FUNC record is a table entry: `eq_linear_scan`.) -/
+theorem public_rule {r : Recs} {sf : SymFile} (hb : build r = .ok sf) {base instr : Nat}
+    (hge : base ≤ instr) {fr : Frame} (h : fillSymbol sf base instr = .ok fr)
+    (hnf : funcAt sf.funcs sf.ftab (instr - base) = none) :
+    (∃ p, NearestPublic r.pubs (instr - base) p ∧
+        (∀ e ∈ sf.ftab, e.1.lo ≤ instr - base → e.1.lo < p.addr) ∧
+        fr = { fn := some (p.name, p.addr + base, p.psize) }) ∨
+    (fr = {} ∧
+      ((∀ q ∈ r.pubs, instr - base < q.addr) ∨
+       ∃ p, NearestPublic r.pubs (instr - base) p ∧
+         ∃ e ∈ sf.ftab, e.1.lo ≤ instr - base ∧ p.addr ≤ e.1.lo)) := by
+  have B := build_built hb
+  have hsep : Sep sf.ftab := by rw [B.ftab]; exact safeVecP_sep _ (funcInput_wf _)
+  obtain ⟨hsome, hnone⟩ := findNearestPublic_spec r.pubs (instr - base)
+  rw [← B.pubs] at hsome hnone
+  unfold fillSymbol at h
+  rw [if_neg (by omega)] at h
+  simp only [hnf] at h
+  cases hp : findNearestPublic sf.pubs (instr - base) with
+  | none =>
+    rw [hp] at h; cases h
+    exact .inr ⟨rfl, .inl (hnone hp)⟩
+  | some p =>
+    rw [hp] at h
+    simp only at h
+    have hnp := hsome p hp
+    obtain ⟨s1, s2, s3⟩ := prevEntry_spec sf.ftab hsep (instr - base)
+    unfold prevFunc at h
+    cases hbs : binarySearchBy sf.ftab.length (probeOf sf.ftab fun e => cmpNat e.1.lo (instr - base)) with
+    | found i =>
+      exfalso
+      obtain ⟨e, he, hlo⟩ := s1 i hbs
+      have hem := List.mem_of_getElem? he
+      have hw := hsep.wf e hem
+      have hget := get_complete_mem sf.ftab hsep e hem (instr - base)
+        (by simp only [Rng.contains, Bool.and_eq_true, decide_eq_true_eq]; unfold WF at hw; omega)
+      obtain ⟨f, _, _, _, _, hf⟩ := ftab_entry_is_record hb hem
+      unfold funcAt at hnf
+      rw [hget] at hnf
+      simp only [Option.bind_some, hf] at hnf
+      cases hnf
+    | notFound k =>
+      cases k with
+      | zero =>
+        rw [hbs] at h
+        simp only at h
+        split at h
+        · cases h
+        · rename_i b hb
+          obtain ⟨rfl, _⟩ := checkedAdd_ok hb
+          cases h
+          refine .inl ⟨p, hnp, ?_, rfl⟩
+          intro e he hle
+          have := s2 hbs e he
+          omega
+      | succ i =>
+        rw [hbs] at h
+        obtain ⟨e, he, hlt, hmax⟩ := s3 i hbs
+        have hem := List.mem_of_getElem? he
+        obtain ⟨f, _, hfa, _, _, hf⟩ := ftab_entry_is_record hb hem
+        simp only [he, Option.bind_some, hf] at h
+        split at h
+        · rename_i hcut
+          cases h
+          refine .inr ⟨rfl, .inr ⟨p, hnp, e, hem, by omega, ?_⟩⟩
+          have : (finOf f).addr = f.addr := rfl
+          omega
+        · rename_i hcut
+          split at h
+          · cases h
+          · rename_i b hb
+            obtain ⟨rfl, _⟩ := checkedAdd_ok hb
+            cases h
+            refine .inl ⟨p, hnp, ?_, rfl⟩
+            intro e' he' hle
+            have := hmax e' he' hle
+            have : (finOf f).addr = f.addr := rfl
+            omega
+
 /-! ## 2. reported bases never exceed the instruction -/
 
 /-- **C11.3 `bases_le`** — "reported function and line base addresses never exceed the
